@@ -9,6 +9,8 @@ Lemma sx_eqb_refl a : sx_eqb a a = true.
 Proof. unfold sx_eqb, list_N_eqb. destruct (list_eq_dec N.eq_dec (print a) (print a)); congruence. Qed.
 Lemma aeqb_refl a : aeqb a a = true.
 Proof. apply sx_eqb_refl. Qed.
+Lemma deqb_refl a : deqb a a = true.
+Proof. apply sx_eqb_refl. Qed.
 Lemma keqb_refl a : keqb a a = true.
 Proof. apply sx_eqb_refl. Qed.
 Lemma ostr_eqb_true a b : ostr_eqb a b = true -> a = b.
@@ -30,23 +32,27 @@ Section Holds.
     destruct (first_error O c [] (file_lines s)); discriminate.
   Qed.
 
-  Lemma vt_pair_spec a b : is_spec a -> is_spec b -> vt_pair a b = true.
+  Lemma vt_pair_spec a b p q : is_spec a -> is_spec b -> In p (vt_key a) -> In q (vt_key b) -> vt_pair p q = true.
   Proof.
-    intros (f1 & cl1 & H1) (f2 & cl2 & H2). unfold vt_pair.
-    destruct a as [k1 v1| |]; [|reflexivity|reflexivity].
-    destruct b as [k2 v2| |]; [|reflexivity|reflexivity].
+    intros (f1 & cl1 & H1) (f2 & cl2 & H2) Hp Hq. unfold vt_pair.
+    destruct a as [k1 v1| |]; cbn [vt_key In] in Hp; try contradiction. destruct Hp as [<-|[]].
+    destruct b as [k2 v2| |]; cbn [vt_key In] in Hq; try contradiction. destruct Hq as [<-|[]].
+    cbn [fst snd].
     destruct (ostr_eqb v1 v2) eqn:Hv; [|reflexivity].
     apply ostr_eqb_true in Hv. subst v2.
     symmetry in H1, H2.
     destruct (spec_aget_is_get _ _ _ _ H1) as [id1 ->]. destruct (spec_aget_is_get _ _ _ _ H2) as [id2 ->].
-    rewrite (spec_get_version O c hash_injective _ _ _ _ _ _ _ H1 H2). apply keqb_refl.
+    rewrite (spec_get_version O c hash_injective _ _ _ _ _ _ _ H1 H2).
+    unfold list_N_eqb. destruct (list_eq_dec N.eq_dec (print (kids_sx k2)) (print (kids_sx k2))); congruence.
   Qed.
 
   Lemma vt_all_spec l : Forall is_spec l -> vt_all l = true.
   Proof.
     intros H. unfold vt_all. rewrite Forall_forall in H.
-    apply forallb_forall. intros a Ha. apply forallb_forall. intros b Hb.
-    apply vt_pair_spec; auto.
+    apply forallb_forall. intros p Hp. apply forallb_forall. intros q Hq.
+    apply in_flat_map in Hp. destruct Hp as (a & Ha & Hp).
+    apply in_flat_map in Hq. destruct Hq as (b & Hb & Hq).
+    exact (vt_pair_spec a b p q (H a Ha) (H b Hb) Hp Hq).
   Qed.
 
   Lemma spec_run_answers : forall h f, Forall is_spec (answers (spec_run O c f h)).
@@ -60,7 +66,7 @@ Section Holds.
   Proof.
     induction h as [|s h IH]; intros f; [reflexivity|].
     destruct s as [v f'|cl]; cbn [spec_run check]; [apply IH|].
-    rewrite !aeqb_refl. cbn [app]. apply IH.
+    rewrite !deqb_refl. cbn [app]. apply IH.
   Qed.
 End Holds.
 
